@@ -15,6 +15,7 @@ import (
 	"os"
 	"sort"
 	"strings"
+	"sync"
 	"sync/atomic"
 	"time"
 
@@ -225,7 +226,6 @@ type preStats struct {
 
 var pbackends = []dnsfix.Backend{dnsfix.RDBv1, dnsfix.RDBv2}
 
-// runPreproc: kDB = bound for the real-database comparison, kMem = bound for the parsed-stream comparison.
 // dbCore is the sub-alphabet from which the larger real-database files are drawn:
 // one % line per map, the indented % line, the SOA serial variants, one ordinary line.
 var dbCore = []string{"net-m1-10-8", "net-c1-v6def", "sp-net", "Z-empty", "Z-ser42", "Z-ser0", "a", "Z-short"}
@@ -271,20 +271,85 @@ func (d *dbSpace) contains(s []int) bool {
 	return true
 }
 
-func runPreproc(r *vlib.Run, dir string, db *dbSpace, kMem int) *preStats {
-	st := &preStats{}
-	noDB := os.Getenv("VERIF_C09_DEBUG_NODB") != "" // debugging aid only; the run is then marked not exhaustive
-	if noDB {
+type pres struct{ db, mem [2]presult }
+
+// preprocCheck holds part 2. The real-database comparisons are latency-bound
+// (RocksDB open/close), so they are started first and run on their own
+// goroutines while part 1 keeps the CPUs busy; results are stored by file
+// index, so nothing depends on the interleaving.
+type preprocCheck struct {
+	st      *preStats
+	db      *dbSpace
+	kMem    int
+	dir     string
+	noDB    bool
+	seqs    [][]int
+	results []pres
+	index   map[string]int
+	dbDone  chan struct{}
+}
+
+func newPreprocCheck(r *vlib.Run, dir string, db *dbSpace, kMem int) *preprocCheck {
+	p := &preprocCheck{st: &preStats{}, db: db, kMem: kMem, dir: dir, index: map[string]int{}, dbDone: make(chan struct{})}
+	p.noDB = os.Getenv("VERIF_C09_DEBUG_NODB") != "" // debugging aid only; the run is then marked not exhaustive
+	if p.noDB {
 		r.Exhaustive = false
 		r.Note("VERIF_C09_DEBUG_NODB set: database comparisons of part 2 were not run")
 	}
-	seqs := sequences(len(palphabet), kMem)
-	type res struct{ db, mem [2]presult }
-	results := make([]res, len(seqs))
-	index := map[string]int{}
-	for i, s := range seqs {
-		index[fileKey(s)] = i
+	p.seqs = sequences(len(palphabet), kMem)
+	p.results = make([]pres, len(p.seqs))
+	for i, s := range p.seqs {
+		p.index[fileKey(s)] = i
 	}
+	return p
+}
+
+// startDB launches the real-database comparisons (unit of work = file x backend).
+func (p *preprocCheck) startDB() {
+	type unit struct{ file, bi int }
+	var units []unit
+	if !p.noDB {
+		for i, s := range p.seqs {
+			if p.db.contains(s) {
+				p.st.files++
+				for bi := range pbackends {
+					units = append(units, unit{i, bi})
+				}
+			}
+		}
+	}
+	go func() {
+		defer close(p.dbDone)
+		t0 := time.Now()
+		var wg sync.WaitGroup
+		next := int64(-1)
+		for w := 0; w < vlib.Workers(); w++ {
+			wg.Add(1)
+			go func() {
+				defer wg.Done()
+				for {
+					k := int(atomic.AddInt64(&next, 1))
+					if k >= len(units) {
+						return
+					}
+					u := units[k]
+					orig := fileText(p.seqs[u.file])
+					pre, perr := preprocess(orig)
+					t1 := time.Now()
+					p.results[u.file].db[u.bi] = compareDB(p.dir, pbackends[u.bi], orig, pre, perr)
+					atomic.AddInt64(&p.st.dbPairs, 1)
+					atomic.AddInt64(&p.st.dbNs, int64(time.Since(t1)))
+				}
+			}()
+		}
+		wg.Wait()
+		debugf("part 2: %d database comparisons finished %.1fs after their start", len(units), time.Since(t0).Seconds())
+	}()
+}
+
+// finish runs the parsed-stream comparisons, waits for the database ones and reports.
+func (p *preprocCheck) finish(r *vlib.Run) *preStats {
+	st, db, noDB, seqs, results, index := p.st, p.db, p.noDB, p.seqs, p.results, p.index
 	vlib.ParallelFor(len(seqs), func(i int) {
 		s := seqs[i]
 		orig := fileText(s)
@@ -301,16 +366,8 @@ func runPreproc(r *vlib.Run, dir string, db *dbSpace, kMem int) *preStats {
 			atomic.AddInt64(&st.memPairs, 1)
 		}
 		atomic.AddInt64(&st.memNs, int64(time.Since(t0)))
-		t0 = time.Now()
-		if db.contains(s) && !noDB {
-			atomic.AddInt64(&st.files, 1)
-			for bi, b := range pbackends {
-				results[i].db[bi] = compareDB(dir, b, orig, pre, perr)
-				atomic.AddInt64(&st.dbPairs, 1)
-			}
-			atomic.AddInt64(&st.dbNs, int64(time.Since(t0)))
-		}
 	})
+	<-p.dbDone
 	debugf("part 2: parsed-stream comparisons %.1fs, database comparisons %.1fs (summed over workers)", float64(st.memNs)/1e9, float64(st.dbNs)/1e9)
 	// sequential, deterministic post-processing: minimal failing files
 	type agg struct {
